@@ -145,7 +145,7 @@ def _generate(ctx):
     for name, schema in mc.SHAPES.items():
         pre = prelude(schema, 2)
         alpha = alphabet(schema, 2)
-        if len(alpha) ** depth > ctx.pick(40000, 1500000):
+        if len(alpha) ** depth > ctx.pick(12000, 1500000):
             # too wide for the full product: full product of the shorter depth, sampled extension
             rng = ctx.rng.fork('exh', name)
             for seq in itertools.product(alpha, repeat=depth - 1):
